@@ -22,6 +22,7 @@ import (
 	"go/types"
 	"sort"
 	"strings"
+	"sync"
 
 	"golang.org/x/tools/go/ssa"
 )
@@ -33,12 +34,12 @@ type Lin struct {
 	T map[string]int64
 }
 
-func linC(c int64) Lin         { return Lin{C: c} }
-func linA(a string) Lin        { return Lin{T: map[string]int64{a: 1}} }
-func (l Lin) isConst() bool    { return len(l.T) == 0 }
-func (l Lin) add(o Lin) Lin    { return l.comb(o, 1) }
-func (l Lin) sub(o Lin) Lin    { return l.comb(o, -1) }
-func (l Lin) eq(o Lin) bool    { d := l.sub(o); return d.isConst() && d.C == 0 }
+func linC(c int64) Lin      { return Lin{C: c} }
+func linA(a string) Lin     { return Lin{T: map[string]int64{a: 1}} }
+func (l Lin) isConst() bool { return len(l.T) == 0 }
+func (l Lin) add(o Lin) Lin { return l.comb(o, 1) }
+func (l Lin) sub(o Lin) Lin { return l.comb(o, -1) }
+func (l Lin) eq(o Lin) bool { d := l.sub(o); return d.isConst() && d.C == 0 }
 func (l Lin) comb(o Lin, k int64) Lin {
 	r := Lin{C: l.C + k*o.C, T: map[string]int64{}}
 	for a, c := range l.T {
@@ -134,7 +135,7 @@ type SV struct {
 	Path   string // canonical access path (inputs) or content id
 	Len    *Lin   // kBytes: symbolic length when known other than len(Path)
 	Buf    *symBuf
-	Off    Lin // kBytes/kElem: offset inside Buf (or inside the input blob named by Path)
+	Off    Lin  // kBytes/kElem: offset inside Buf (or inside the input blob named by Path)
 	Whole  bool // kBytes: the whole input blob named by Path
 	Nil    bool // kBytes / kErr / kPtr: known nil
 	Fn     *ssa.Function
@@ -148,8 +149,8 @@ type SV struct {
 	Op     token.Token // kBool with Str=="cmp": the undecided comparison  L Op 0
 }
 
-func svInt(l Lin) SV      { return SV{K: kInt, L: l} }
-func svBool(b bool) SV    { return SV{K: kBool, B: b} }
+func svInt(l Lin) SV       { return SV{K: kInt, L: l} }
+func svBool(b bool) SV     { return SV{K: kBool, B: b} }
 func svOpaque(p string) SV { return SV{K: kOpaque, Path: p} }
 
 // ---- segments of the output stream ----
@@ -167,18 +168,35 @@ type needSplit struct{ key string }
 type undecided struct{ why string }
 
 type sx struct {
-	p       *Program
-	assume  map[string]bool
-	order   []string // assumption keys in the order they were consulted
-	stream  []segment
-	heap    map[string]SV
-	bufN    int
-	steps   int
-	notes   map[string]bool
-	depth   int
-	sinkObj map[string]bool // paths of writer objects whose Write goes to the stream
-	inLoop  int
+	p         *Program
+	assume    map[string]bool
+	order     []string // assumption keys in the order they were consulted
+	stream    []segment
+	heap      map[string]SV
+	bufN      int
+	steps     int
+	notes     map[string]bool
+	depth     int
+	sinkObj   map[string]bool // paths of writer objects whose Write goes to the stream
+	inLoop    int
 	opaqueFns map[string]bool
+	rlog      []readEvent
+	facts     []loopFact
+}
+
+type readEvent struct {
+	kind string // "u32" | "slice"
+	path string
+	off  Lin
+	ln   Lin
+	pos  string
+}
+
+type loopFact struct {
+	fn     string
+	pos    string
+	deltas map[string]Lin // iteration atom -> advance per iteration
+	reads  []readEvent
 }
 
 func (s *sx) note(n string) { s.notes[n] = true }
@@ -283,8 +301,13 @@ func (s *sx) basePos(l Lin) bool {
 			}
 		}
 	}
-	return s.decide("(" + l.String() + ")>0")
+	key := "(" + l.String() + ")>0"
+	keyLins.Store(key, l)
+	return s.decide(key)
 }
+
+// keyLins remembers the linear form behind every "(F)>0" assumption key.
+var keyLins sync.Map
 
 // atLeast: a >= k, kept consistent across different k through a ladder of assumptions
 func (s *sx) atLeast(a string, k int64) bool {
@@ -884,9 +907,14 @@ func (s *sx) summarise(f *frame, li *loopInfo, prev *ssa.BasicBlock) (*ssa.Basic
 	}
 	// symbolic iteration
 	for _, a := range accs {
-		switch a.entry.K {
-		case kInt:
+		switch {
+		case a.entry.K == kInt:
 			f.vals[preset{a.phi}] = svInt(linA(a.atom))
+		case a.entry.K == kBytes && a.entry.Buf == nil && a.entry.Path != "" && !a.entry.Nil && isByteSlice(a.phi.Type()):
+			// a cursor kept as a re-sliced input: its offset is the iteration variable
+			off := linA(a.atom)
+			n := linA("len(" + a.entry.Path + ")").sub(off)
+			f.vals[preset{a.phi}] = SV{K: kBytes, Path: a.entry.Path, Off: off, Len: &n}
 		default:
 			f.vals[preset{a.phi}] = SV{K: kOpaque, Path: a.atom}
 		}
@@ -900,12 +928,42 @@ func (s *sx) summarise(f *frame, li *loopInfo, prev *ssa.BasicBlock) (*ssa.Basic
 	s.inLoop++
 	var bodyRet []SV
 	bodyReturned := false
+	logStart := len(s.rlog)
 	func() {
 		defer func() { s.inLoop-- }()
 		bodyRet, bodyReturned = s.runFrom(f, h, nil, li)
 	}()
 	body := s.stream
 	s.stream = saved
+	lpos := s.p.Pos(iff.Pos())
+	if lpos == "-" || lpos == "" {
+		for _, bb := range f.fn.Blocks {
+			if !li.body[bb] {
+				continue
+			}
+			for _, in := range bb.Instrs {
+				if pp := s.p.Pos(in.Pos()); pp != "-" && pp != "" && (lpos == "-" || lpos == "") {
+					lpos = pp
+				}
+			}
+		}
+	}
+	fact := loopFact{fn: FnName(f.fn), pos: lpos, deltas: map[string]Lin{}, reads: append([]readEvent{}, s.rlog[logStart:]...)}
+	for _, a := range accs {
+		back, ok := f.vals[backKey{a.phi}]
+		if !ok {
+			continue
+		}
+		switch {
+		case a.entry.K == kInt && back.K == kInt:
+			fact.deltas[a.atom] = back.L.sub(linA(a.atom))
+		case a.entry.K == kBytes && back.K == kBytes && back.Path == a.entry.Path && back.Buf == nil && a.entry.Buf == nil && a.entry.Path != "":
+			fact.deltas[a.atom] = back.Off.sub(linA(a.atom))
+		}
+	}
+	if len(fact.reads) > 0 {
+		s.facts = append(s.facts, fact)
+	}
 	if ind != nil {
 		if bin, ok := iff.Cond.(*ssa.BinOp); ok {
 			bv := s.eval(f, bin.Y)
